@@ -302,3 +302,30 @@ func bcdOfDigits(s string) []byte {
 	}
 	return out
 }
+
+// a 32-bit value derived from a number the source itself names: the number, its neighbours, and - reading it as a bit
+// mask - values that agree with it on the masked bits and are arbitrary elsewhere (what `x|m == ..` and `x&m == ..`
+// single out)
+func dictU32(r *Rand) (uint32, bool) {
+	ds := dictIntsOf(32)
+	if len(ds) == 0 {
+		return 0, false
+	}
+	m := uint32(ds[r.Intn(len(ds))])
+	x := r.U32()
+	switch r.Intn(7) {
+	case 0:
+		return m, true
+	case 1:
+		return m + 1, true
+	case 2:
+		return m - 1, true
+	case 3:
+		return ^m | (x & m), true
+	case 4:
+		return m | (x &^ m), true
+	case 5:
+		return x & m, true
+	}
+	return x &^ m, true
+}
